@@ -858,6 +858,41 @@ func r40DecodeTotal(c *core.Ctx) {
 			fmt.Sprintf("%d returns: errors, or validate.Struct(receiver)", nret),
 			"a decoder can return success without running the struct validation: "+bad)
 	}
+	// (e0) defaults.Set runs before the validator: a member that is required must not have a default, or its
+	// absence is filled in and passes ("required" then says nothing about the document)
+	{
+		nreq := 0
+		sc := pk.Types.Scope()
+		for _, name := range sc.Names() {
+			tn, ok := sc.Lookup(name).(*types.TypeName)
+			if !ok {
+				continue
+			}
+			st, ok := tn.Type().Underlying().(*types.Struct)
+			if !ok {
+				continue
+			}
+			for i := 0; i < st.NumFields(); i++ {
+				tag := reflect.StructTag(st.Tag(i))
+				v, _ := tag.Lookup("validate")
+				req := false
+				for _, p := range strings.Split(v, ",") {
+					if p == "required" {
+						req = true
+					}
+				}
+				if !req {
+					continue
+				}
+				nreq++
+				if d, has := tag.Lookup("default"); has && d != "" {
+					c.Bad(R, "required-member-has-no-default/tms20."+name+"."+st.Field(i).Name(), st.Field(i).Pos(),
+						fmt.Sprintf("%s.%s is required and has the default %q: defaults are set before validation, a document without this member is completed and accepted instead of rejected", name, st.Field(i).Name(), d))
+				}
+			}
+		}
+		c.Check(R, "required-member-has-no-default/inventory", token.NoPos, nreq >= 8, fmt.Sprintf("%d required members in tms20, none with a default tag", nreq), fmt.Sprintf("only %d required members found in tms20 (floor 8)", nreq))
+	}
 	// (e) tag inventory
 	tagHas := func(tag, key, want string) bool {
 		v, _ := reflect.StructTag(tag).Lookup(key)
